@@ -108,5 +108,5 @@ def main(tier, args):
                            "responses are delivered synchronously into the requester's onRecvData (as modules/jsonrpc/rpc_test.cpp wires its peers)",
                            "Rpc::cleanup() abandons pending requests: the oracle accepts either silence (what the code does) or one error callback while cleanup() runs, and demands silence afterwards",
                            "a response delivered from inside a timeout callback of the very tick in which its own request expires may be reported as either the response or the timeout (order within a tick is not promised), still exactly once",
-                           "a duplicate of a response delivered re-entrantly from inside that response's own completion callback is NOT explored by default (lane L4, switch C14_REENTRANT_DUP=1): see the check's report",
+                           "a duplicate of a response delivered re-entrantly from inside that response's own completion callback is explored by lane L4 (C14_REENTRANT_DUP=0 turns it off)",
                            "message ids that are not int-range integers (strings, fractions, 64-bit values, null) are only required not to throw; which id the callback then sees is not judged"])
